@@ -252,6 +252,51 @@ def raw_http(addr, method, target, headers=(), body=None, timeout=30.0, half_clo
     return parse_http_response(bytes(buf), method)
 
 
+def raw_http_slow(addr, method, target, headers, body, between, cut=None, timeout=30.0, pause=0.15):
+    """One request whose body arrives in two parts; `between()` runs after the head and the first part
+    were sent (and the server had `pause` seconds to start handling the request), before the rest is sent.
+    -> (response, whatever between() returned)"""
+    if addr[0] == "unix":
+        s = socket.socket(socket.AF_UNIX, socket.SOCK_STREAM)
+        s.settimeout(timeout)
+        s.connect(addr[1])
+    else:
+        s = socket.create_connection((addr[1], addr[2]), timeout=timeout)
+    mid = None
+    try:
+        lines = [f"{method} {target} HTTP/1.1", "Host: localhost"]
+        for k, v in headers:
+            lines.append(f"{k}: {v}")
+        lines.append(f"Content-Length: {len(body)}")
+        lines.append("Connection: close")
+        head = ("\r\n".join(lines) + "\r\n\r\n").encode("latin-1")
+        cut = len(body) // 2 if cut is None else cut
+        try:
+            s.sendall(head + body[:cut])
+            time.sleep(pause)
+            mid = between()
+            s.sendall(body[cut:])
+        except (BrokenPipeError, ConnectionResetError):
+            pass
+        buf = bytearray()
+        while True:
+            try:
+                c = s.recv(65536)
+            except socket.timeout:
+                return Resp(0, [], bytes(buf), broken="timeout"), mid
+            except ConnectionResetError:
+                break
+            if not c:
+                break
+            buf += c
+    finally:
+        try:
+            s.close()
+        except Exception:
+            pass
+    return parse_http_response(bytes(buf), method), mid
+
+
 def parse_http_response(buf, method):
     if not buf:
         return Resp(0, [], b"", broken="empty")
